@@ -179,13 +179,31 @@ def discharge(obls, axioms=None, z3_ms=10000, cvc5_s=20, procs=None, axioms_lite
         if z3.is_false(o.goal) and not o.pc and getattr(o, "backend_hint", None):
             res[i] = dict(verdict="refuted", seconds=0.0, backend=o.backend_hint)
             continue
-        th = getattr(o, "theories", ()) or ()
-        extra = list(getattr(o, "extra", ()) or ())
-        jobs.append((i, to_smt2(axioms_for(th, False) + extra, o.pc, o.goal),
-                     to_smt2(axioms_for(th, True) + extra, o.pc, o.goal), z3_ms, cvc5_s))
+        jobs.append((i, z3_ms, cvc5_s))
     if jobs:
+        # the workers are forked AFTER the obligations exist: each one serialises (relevance filter + SMT-LIB text) the
+        # obligations it is handed itself, so that step is parallel too; only verdicts travel back
+        global _OBLS
+        _OBLS = obls
+        for th in set(tuple(getattr(o, "theories", ()) or ()) for o in obls):
+            axioms_for(th, False)
+            axioms_for(th, True)
         procs = procs or min(16, os.cpu_count() or 4)
-        with multiprocessing.Pool(procs) as pool:
-            for idx, verdict, dt, backend in pool.imap_unordered(_work, jobs, chunksize=1):
-                res[idx] = dict(verdict=verdict, seconds=dt, backend=backend)
+        try:
+            with multiprocessing.get_context("fork").Pool(procs) as pool:
+                for idx, verdict, dt, backend in pool.imap_unordered(_work_forked, jobs, chunksize=4):
+                    res[idx] = dict(verdict=verdict, seconds=dt, backend=backend)
+        finally:
+            _OBLS = None
     return res
+
+
+_OBLS = None
+
+
+def _work_forked(job):
+    i, z3_ms, cvc5_s = job
+    o = _OBLS[i]
+    th = getattr(o, "theories", ()) or ()
+    extra = list(getattr(o, "extra", ()) or ())
+    return _work((i, to_smt2(axioms_for(th, False) + extra, o.pc, o.goal), to_smt2(axioms_for(th, True) + extra, o.pc, o.goal), z3_ms, cvc5_s))
